@@ -127,9 +127,9 @@ int main(int argc, char** argv){
         std::vector<long> counts;
         for(long n = 0 ; n <= 17 ; ++n) counts.push_back(n);
         for(long n : {31L, 32L, 33L, 64L, 65L}) counts.push_back(n);
-        if(thorough) for(long n : {127L, 128L, 129L, 500L}) counts.push_back(n);
+        if(thorough){ for(long n = 18 ; n <= 30 ; ++n) counts.push_back(n); for(long n : {34L, 47L, 48L, 49L, 63L, 66L, 95L, 96L, 97L, 127L, 128L, 129L, 255L, 256L, 257L, 500L, 1000L}) counts.push_back(n); }
         const std::vector<double> seps = thorough ? std::vector<double>{1e-6, 1e-3, 1, 1e3, 1e6} : std::vector<double>{1e-3, 1, 1e3};
-        rep.spaces.push_back("(nsrc, ntgt) in {0..17,31,32,33,64,65" + std::string(thorough ? ",127,128,129,500" : "") + "}^2 x separation scale x 3 layout families x {float,double} x {scalar entry points, generic entry points}");
+        rep.spaces.push_back("(nsrc, ntgt) in {0..17,31,32,33,64,65" + std::string(thorough ? ",18..30,34,47..49,63,66,95..97,127..129,255..257,500,1000" : "") + "}^2 x separation scale x 3 layout families x {float,double} x {scalar entry points, generic entry points}");
         unsigned long ord = 0;
         for(long ns : counts) for(long nt : counts) for(double sep : seps) for(int fam = 0 ; fam < 3 ; ++fam){
             if((ord++) % args.nbSlices != args.slice) continue;
